@@ -154,18 +154,55 @@ def run_harness(sub, inputs, args=(), timeout=900, shards=None):
     return out
 
 
+class Hang(Broken):
+    """several cases of one harness run gave no answer within their time limit; .inputs are those cases"""
+
+    def __init__(self, sub, inputs):
+        Broken.__init__(self, "harness-hang:" + sub, json.dumps(inputs[0])[:2000])
+        self.inputs = inputs
+
+
+def _limit_memory():
+    import resource
+
+    resource.setrlimit(resource.RLIMIT_AS, (24 << 30, 24 << 30))
+
+
 def _run_harness1(exe, sub, inputs, args, timeout):
-    data = "".join(json.dumps(x, separators=(",", ":")) + "\n" for x in inputs)
-    rc, out, err = sh([exe, sub, *args], input=data, timeout=timeout)
-    if rc != 0:
-        raise Broken("harness-run:" + sub, (err or out)[-4000:])
-    lines = [l for l in out.split("\n") if l.strip()]
-    if len(lines) != len(inputs):
-        raise Broken(
-            "harness-run:" + sub,
-            "expected %d result lines, got %d\n%s" % (len(inputs), len(lines), err[-2000:]),
-        )
-    return [json.loads(l) for l in lines]
+    results = [None] * len(inputs)
+    todo = list(range(len(inputs)))
+    hung = []
+    t_end = time.time() + timeout
+    while todo:
+        data = "".join(json.dumps(inputs[i], separators=(",", ":")) + "\n" for i in todo)
+        try:
+            p = subprocess.run([exe, sub, *args], env=ENV, input=data, stdout=subprocess.PIPE, stderr=subprocess.PIPE, text=True, timeout=max(5, t_end - time.time()), preexec_fn=_limit_memory)
+        except subprocess.TimeoutExpired:
+            raise Broken("harness-run:" + sub, "no answer within %ds (%d cases outstanding; first: %s)" % (timeout, len(todo), json.dumps(inputs[todo[0]])[:600]))
+        rc, out, err = p.returncode, p.stdout, p.stderr
+        if rc != 0:
+            raise Broken("harness-run:" + sub, (err or out)[-4000:])
+        lines = [l for l in out.split("\n") if l.strip()]
+        if len(lines) != len(todo):
+            raise Broken(
+                "harness-run:" + sub,
+                "expected %d result lines, got %d\n%s" % (len(todo), len(lines), err[-2000:]),
+            )
+        rest = []
+        for i, l in zip(todo, lines):
+            r = json.loads(l)
+            if isinstance(r, dict) and r.get("skipped"):
+                rest.append(i)  # a case before it ran away and the process gave up: submit again
+            else:
+                results[i] = r
+                if isinstance(r, dict) and r.get("timeout"):
+                    hung.append(inputs[i])
+        if len(hung) >= 3 and rest:
+            raise Hang(sub, hung)  # every hanging case costs its full time limit: three are enough to report
+        if len(rest) == len(todo):
+            raise Broken("harness-run:" + sub, "no progress")
+        todo = rest
+    return results
 
 
 # -------------------------------------------------------------------- coq ---
